@@ -160,5 +160,224 @@ pub fn run() -> Option<Report> {
         } }
     } }
     r.check(Interval::try_new(f64::NAN, 0.0).is_err() && Interval::try_new(0.0, f64::NAN).is_err() && Interval::try_new(1.0, 0.0).is_ok(), "try_new rejects exactly NaN bounds", || "NaN".to_string());
+    wave5(&mut r);
     Some(r)
+}
+
+// ------------------------------------------------------------------------------------------------ wave 5
+// Parameter-space audit (notes/w5_audit_C18.md): magnitudes (whole turns up to 1e6 rad, tiny angles, vectors scaled
+// 1e-9 .. 1e8, scalar bounds up to f64::MAX and down to subnormals), exact ties (bit-equal angles, whole-turn and
+// half-turn partners, arcs touching in exactly one angle, probes one ulp either side of a scalar bound), parameter
+// relations (extent < tolerance, |extent| just above / below a full turn, both signs), point intervals.
+
+/// (cos, sin) of b - a by the addition formulas: libm reduces each argument accurately, so this is the direction of
+/// the difference without ever forming b - a (which would lose the low bits for |a| ~ 1e6)
+fn diff_dir(a: f64, b: f64) -> (f64, f64) { (b.cos() * a.cos() + b.sin() * a.sin(), b.sin() * a.cos() - b.cos() * a.sin()) }
+
+/// counter-clockwise distance from angle a to angle b in [0, 2pi), own arithmetic (rem_euclid)
+fn ccw_dist(a: f64, b: f64) -> f64 { (b - a).rem_euclid(2.0 * PI) }
+
+fn wave5(r: &mut Report) {
+    let tp = 2.0 * PI;
+    // ---- AngleDir: the sign convention every "in the stated direction" clause rests on
+    r.case();
+    r.check(AngleDir::Ccw.to_sign() == 1.0 && AngleDir::Cw.to_sign() == -1.0
+            && matches!(AngleDir::from_sign(1.0), AngleDir::Ccw) && matches!(AngleDir::from_sign(-1.0), AngleDir::Cw)
+            && matches!(AngleDir::from_sign(-1e-300), AngleDir::Cw) && matches!(AngleDir::from_sign(1e-300), AngleDir::Ccw)
+            && matches!(AngleDir::Ccw.opposite(), AngleDir::Cw) && matches!(AngleDir::Cw.opposite(), AngleDir::Ccw),
+            "AngleDir: counter-clockwise is the positive sign, clockwise the negative one, opposite swaps them", || "to_sign / from_sign / opposite".to_string());
+
+    // ---- normalisation: whole turns (remainder exactly +-0), tiny angles of both signs, thresholds of the tolerance
+    let mut extra: Vec<f64> = vec![];
+    for k in [1.0f64, 2.0, 3.0, 1000.0, 159154.0, 159155.0] { for s in [1.0, -1.0] { let b = s * k * tp; extra.extend_from_slice(&[b, up(b), down(b)]); } }
+    for e in [1e-6f64, 1e-9, 1e-12, 1e-13, 1e-15, 1e-16, 1e-100, 5e-324] { for s in [1.0, -1.0] {
+        extra.extend_from_slice(&[s * e, s * (tp - e), s * (tp + e), s * (PI - e), s * (PI + e), s * (4.0 * tp - e)]);
+    } }
+    for &a in extra.iter() {
+        r.case();
+        let d = || format!("angle {:?} (bits {:#x})", a, a.to_bits());
+        let u = angle_to_2pi(a);
+        r.check(u >= 0.0 && u <= tp, "angle_to_2pi result in [0, 2pi]", d);
+        r.check(same_dir(u, a, a), "angle_to_2pi denotes the same direction", d);
+        let s = angle_signed_pi(a);
+        r.check(s >= -PI && s <= PI, "angle_signed_pi result in [-pi, pi]", d);
+        r.check(same_dir(s, a, a), "angle_signed_pi denotes the same direction", d);
+        if a >= -tp && a <= tp {
+            let c = signed_compliment_2pi(a);
+            r.check(same_dir(c, a, a), "signed_compliment_2pi denotes the same direction", d);
+            r.check(c >= -tp && c <= tp && (a == 0.0 || c == 0.0 || (c > 0.0) != (a > 0.0)), "signed_compliment_2pi has the opposite sign, within [-2pi, 2pi]", d);
+        }
+    }
+
+    // ---- directed angle between two angles: large magnitudes, exact ties (bit-equal, whole-turn and half-turn partners)
+    let firsts = [0.0, -0.0, 0.3, -2.9, PI, -PI, 3.0, 6.0, -6.2, 1.0e6, -1.0e6, 123456.789, -98765.4321, 1000.0 * PI, 159155.0 * tp, 1e-13, -1e-13];
+    let mut pairs: Vec<(f64, f64)> = vec![];
+    for &a in firsts.iter() {
+        for &b in firsts.iter() { pairs.push((a, b)); }
+        for off in [0.0, tp, -tp, 2.0 * tp, PI, -PI, 0.5, -0.5, 1e-9, -1e-9, 100.0 * tp, -100.0 * tp] { pairs.push((a, a + off)); pairs.push((a + off, a)); }
+    }
+    for &(a, b) in pairs.iter() {
+        r.case();
+        let d = || format!("angle_in_direction({:?}, {:?})", a, b);
+        let cw = angle_in_direction(a, b, AngleDir::Cw);
+        let ccw = angle_in_direction(a, b, AngleDir::Ccw);
+        r.check(cw >= 0.0 && cw <= tp && ccw >= 0.0 && ccw <= tp, "directed angle between two angles in [0, 2pi]", d);
+        // the reduction of an angle of size 1e6 by the double nearest to 2pi is off by ~1e6 / 2pi * 2.4e-16 = 4e-11
+        let t = 1e-9 + 1e-15 * (a.abs() + b.abs());
+        let (c, s) = diff_dir(a, b);
+        r.check((ccw.cos() - c).abs() <= t && (ccw.sin() - s).abs() <= t, "rotating the first angle counter-clockwise by the directed angle gives the second", d);
+        r.check((cw.cos() - c).abs() <= t && (cw.sin() + s).abs() <= t, "rotating the first angle clockwise by the directed angle gives the second", d);
+        r.check((cw + ccw - tp).abs() <= 1e-9 || (cw.abs() <= 1e-9 && ccw.abs() <= 1e-9),
+                "cw + ccw directed angles sum to a full turn or are both zero", d);
+    }
+
+    // ---- directed angle between two vectors: lengths 1e-9 .. 1e8 in every combination (the angle is scale free)
+    let mut dirs: Vec<Vector2> = vec![];
+    for k in 0..16 { let t = 0.1 + k as f64 * PI / 8.0; dirs.push(Vector2::new(t.cos(), t.sin())); }
+    dirs.extend_from_slice(&[Vector2::new(1.0, 0.0), Vector2::new(-1.0, 0.0), Vector2::new(0.0, 1.0), Vector2::new(0.0, -1.0), Vector2::new(0.3, -0.7), Vector2::new(-0.3, 0.7), Vector2::new(3.0, 4.0), Vector2::new(-3.0, -4.0)]);
+    let scales = [1e-9, 1e-3, 1.0, 1e4, 1e8];
+    for v1 in dirs.iter() { for v2 in dirs.iter() {
+        let base_ccw = directed_angle(v1, v2, AngleDir::Ccw);
+        let base_cw = directed_angle(v1, v2, AngleDir::Cw);
+        for &s1 in scales.iter() { for &s2 in scales.iter() {
+            r.case();
+            let (w1, w2) = (v1 * s1, v2 * s2);
+            let d = || format!("v1=({:?},{:?}) v2=({:?},{:?})", w1.x, w1.y, w2.x, w2.y);
+            let cw = directed_angle(&w1, &w2, AngleDir::Cw);
+            let ccw = directed_angle(&w1, &w2, AngleDir::Ccw);
+            r.check(cw >= 0.0 && cw <= tp && ccw >= 0.0 && ccw <= tp, "directed angle between two vectors in [0, 2pi]", d);
+            r.check((cw + ccw - tp).abs() <= 1e-9 || (cw.abs() <= 1e-9 && ccw.abs() <= 1e-9), "cw + ccw directed vector angles sum to a full turn or are both zero", d);
+            // same pair of directions => same directed angle (0 and 2pi denote the same rotation)
+            let same = |x: f64, y: f64| (x - y).abs() <= 1e-9 || ((x - y).abs() - tp).abs() <= 1e-9;
+            r.check(same(ccw, base_ccw) && same(cw, base_cw), "the directed angle between two vectors does not depend on their lengths", d);
+            let rot = |v: &Vector2, t: f64| Vector2::new(v.x * t.cos() - v.y * t.sin(), v.x * t.sin() + v.y * t.cos());
+            let par = |a: Vector2, b: &Vector2| { let (na, nb) = (a.norm(), b.norm()); ((a.x / na - b.x / nb).abs() <= 1e-9) && ((a.y / na - b.y / nb).abs() <= 1e-9) };
+            r.check(par(rot(&w1, ccw), &w2), "rotating the first vector counter-clockwise by the directed angle gives the second", d);
+            r.check(par(rot(&w1, -cw), &w2), "rotating the first vector clockwise by the directed angle gives the second", d);
+            let s = signed_angle(&w1, &w2);
+            r.check(s >= -PI && s <= PI && par(rot(&w1, s), &w2), "signed_angle in [-pi, pi] and rotates v1 onto v2", d);
+        } }
+    } }
+    // rot90 / rot270 on every direction (a quarter turn is exact on the axes)
+    for dir in [AngleDir::Cw, AngleDir::Ccw] { for v in dirs.iter() {
+        r.case();
+        let sg = dir.to_sign();
+        let e = Vector2::new(-v.y * sg, v.x * sg);
+        let (a, b) = (rot90(dir) * v, rot270(dir) * v);
+        r.check((a - e).norm() <= 1e-12 * (1.0 + v.norm()) && (b + e).norm() <= 1e-12 * (1.0 + v.norm()), "rot90 / rot270 rotate by a quarter / three quarters of a turn in the stated direction", || format!("{:?} v=({:?},{:?})", dir, v.x, v.y));
+    } }
+
+    // ---- angular intervals: membership
+    // (start, extent) families: starts many turns away, extents below the tolerance, at / one ulp around / beyond a full
+    // turn in both signs. Probes: the swept set (interior only when the start is large: forming start + x rounds by
+    // 1e-10 there), 1e-9 inside and 1e-9 outside each end (the documented tolerance is 1e-12), the complementary arc.
+    let starts = [0.0, 0.5, 3.0, tp - 0.25, tp, up(tp), down(tp), tp - 1e-13, -1e-13, 1e-13, -0.5, 7.0, 200.0 * PI + 0.5, -200.0 * PI - 0.5, 1.0e6, -1.0e6, 123456.789];
+    let extents = [0.0, 1e-13, 1e-6, 0.25, 1.0, PI, 6.0, down(tp), tp, up(tp), 100.0, -1e-13, -1e-6, -0.25, -1.0, -PI, -6.0, -down(tp), -tp, -up(tp), -100.0];
+    for &s0 in starts.iter() { for &e0 in extents.iter() {
+        r.case();
+        let iv = AngleInterval::new(s0, e0);
+        let d = || format!("AngleInterval::new({:?}, {:?})", s0, e0);
+        r.check(iv.start() >= 0.0 && iv.start() <= tp && iv.angle() >= 0.0 && iv.angle() <= tp, "AngleInterval start and extent normalised to [0, 2pi]", d);
+        let sweep = if e0.abs() >= tp { tp * e0.signum() } else { e0 };
+        let big = s0.abs() > 50.0;
+        let slack = if big { 1e-8 } else { 0.0 };
+        for k in 0..=16 {
+            if big && (k == 0 || k == 16) && sweep.abs() < tp { continue; }
+            if big && sweep.abs() < 1e-5 { continue; }
+            let a = s0 + sweep * (k as f64) / 16.0;
+            r.check(iv.contains(a) && iv.contains(a + tp) && iv.contains(a - 2.0 * tp), "an angle swept from start through extent is contained (any representative)", || format!("{} contains({:?})", d(), a));
+        }
+        if !big {
+            // the parametrisation of the sweep
+            for f in [0.25, 0.5, 0.75] {
+                let a = iv.at_fraction(f);
+                r.check((a - (iv.start() + iv.angle() * f)).abs() <= 1e-12 && iv.contains(a), "at_fraction(f) is the angle a fraction f of the way through the sweep, and is contained", || format!("{} at_fraction({})", d(), f));
+            }
+            if sweep.abs() >= 1e-6 {
+                for a in [s0 + 1e-9 * sweep.signum(), s0 + sweep - 1e-9 * sweep.signum()] {
+                    r.check(iv.contains(a), "an angle 1e-9 inside an end of the sweep is contained", || format!("{} contains({:?})", d(), a));
+                }
+            }
+        }
+        let gap = tp - sweep.abs();
+        if gap >= 1e-3 {
+            for k in 1..16 {
+                let off = gap * (k as f64) / 16.0;
+                if off < 1e-4 || gap - off < 1e-4 { continue; }
+                let a = if sweep >= 0.0 { s0 + sweep + off } else { s0 + sweep - off };
+                r.check(!iv.contains(a) && !iv.contains(a - tp), "an angle outside the swept set is not contained", || format!("{} contains({:?})", d(), a));
+            }
+            let sg = if sweep >= 0.0 { 1.0 } else { -1.0 };
+            for a in [s0 - sg * (1e-9 + slack), s0 + sweep + sg * (1e-9 + slack)] {
+                r.check(!iv.contains(a), "an angle 1e-9 outside an end of the sweep is not contained", || format!("{} contains({:?})", d(), a));
+            }
+        }
+    } }
+
+    // ---- angular intervals: intersects <=> the two swept arcs share an angle (closed form: one arc starts inside the
+    // other), over point arcs, full turns, wrapping arcs, negative extents; grazing pairs (an end within 1e-6 of the other
+    // arc's end) are left to the deliberate ties below
+    let st = [0.0, 0.5, 1.0, 3.0, 5.5, 6.0, 6.25, -1.0, 7.0, tp, 200.0 * PI + 0.5];
+    let ex = [0.0, 0.25, 0.5, 1.0, 2.0, 3.5, 6.0, tp, 7.0, -0.5, -1.0, -2.0, -7.0];
+    let arc = |s: f64, e: f64| -> (f64, f64) { if e.abs() >= tp { (s, tp) } else if e < 0.0 { (s + e, -e) } else { (s, e) } };
+    for &s0 in st.iter() { for &e0 in ex.iter() { for &s1 in st.iter() { for &e1 in ex.iter() {
+        r.case();
+        let (a0, l0) = arc(s0, e0);
+        let (a1, l1) = arc(s1, e1);
+        let (d01, d10) = (ccw_dist(a0, a1), ccw_dist(a1, a0));
+        // a1 lies in arc 0 <=> d01 <= l0; grazing when d01 is within 1e-6 of l0 (or of a whole turn: coincident starts are fine)
+        let graze = |dd: f64, l: f64| (dd - l).abs() < 1e-6 && l < tp;
+        if graze(d01, l0) || graze(d10, l1) || graze(d01 - tp, l0) || graze(d10 - tp, l1) { continue; }
+        let share = d01 <= l0 || d10 <= l1 || d01 > tp - 1e-9 || d10 > tp - 1e-9;
+        let a = AngleInterval::new(s0, e0);
+        let b = AngleInterval::new(s1, e1);
+        r.check(a.intersects(&b) == share && b.intersects(&a) == share, "angular intervals intersect exactly when they share an angle", || format!("new({:?},{:?}) vs new({:?},{:?})", s0, e0, s1, e1));
+    } } } }
+    // deliberate ties (dyadic values, exact arithmetic): closed arcs that touch in exactly one angle share it
+    for &(s0, e0, s1, e1) in [(0.5, 0.5, 1.0, 0.25), (1.0, 0.25, 0.5, 0.5), (0.5, 0.5, 1.0, 0.0), (1.0, 0.0, 1.0, 0.0), (2.0, -0.5, 2.0, 0.5), (2.0, -0.5, 1.0, 0.5), (1.5, 0.5, 3.0, -1.0), (0.25, 0.0, 0.0, 0.25)].iter() {
+        r.case();
+        let a = AngleInterval::new(s0, e0);
+        let b = AngleInterval::new(s1, e1);
+        r.check(a.intersects(&b) && b.intersects(&a), "angular intervals that touch in exactly one angle intersect", || format!("new({:?},{:?}) vs new({:?},{:?})", s0, e0, s1, e1));
+    }
+
+    // ---- scalar intervals: magnitudes (f64::MAX, subnormals), ulp neighbours of the bounds as probes, try_new == new,
+    // clamp == nearest point
+    let bounds = [f64::NEG_INFINITY, f64::MIN, -1e300, -1.0, -1e-300, -5e-324, -0.0, 0.0, 5e-324, 1e-300, 1.0, up(1.0), 1e300, f64::MAX, f64::INFINITY];
+    let mut probes: Vec<f64> = vec![];
+    for &b in bounds.iter() { probes.push(b); if b.is_finite() { probes.push(up(b)); probes.push(down(b)); } }
+    probes.extend_from_slice(&[0.5, -0.5, 2.0, 1e100, -1e100]);
+    for &a0 in bounds.iter() { for &a1 in bounds.iter() {
+        r.case();
+        let ia = Interval::new(a0, a1);
+        let d = || format!("Interval::new({:?}, {:?})", a0, a1);
+        r.check(ia.min <= ia.max && ((ia.min == a0 && ia.max == a1) || (ia.min == a1 && ia.max == a0)), "scalar interval orders its bounds", d);
+        match Interval::try_new(a0, a1) {
+            Ok(t) => r.check(t.min == ia.min && t.max == ia.max, "try_new orders its bounds like new", d),
+            Err(_) => r.check(false, "try_new rejects exactly NaN bounds", d),
+        }
+        for &x in probes.iter() {
+            let dx = || format!("{} probe {:?} (bits {:#x})", d(), x, x.to_bits());
+            r.check(ia.contains(x) == (ia.min <= x && x <= ia.max), "contains agrees with min <= x <= max", dx);
+            let c = ia.clamp(x);
+            r.check(ia.contains(c) && (!ia.contains(x) || c == x), "clamp lands inside and is the identity inside", dx);
+            r.check(if x < ia.min { c == ia.min } else if x > ia.max { c == ia.max } else { c == x }, "clamp returns the nearest point of the interval (the violated bound outside)", dx);
+        }
+        for &b0 in bounds.iter() { for &b1 in bounds.iter() {
+            let ib = Interval::new(b0, b1);
+            let d2 = || format!("{} vs Interval::new({:?}, {:?})", d(), b0, b1);
+            let lo = ia.min.max(ib.min); let hi = ia.max.min(ib.max);
+            let common = lo <= hi;
+            r.check(ia.overlaps(&ib) == common && ib.overlaps(&ia) == common, "overlaps <=> the intervals share a point", d2);
+            match (ia.intersection(&ib), ib.intersection(&ia)) {
+                (None, None) => r.check(!common, "intersection is None only when nothing is shared", d2),
+                (Some(i), Some(j)) => {
+                    r.check(common && i.min == lo && i.max == hi && j.min == lo && j.max == hi, "intersection is [max of mins, min of maxes], commutative", d2);
+                    r.check(ia.contains_interval(&i) && ib.contains_interval(&i), "intersection is contained in both operands", d2);
+                }
+                _ => r.check(false, "intersection is commutative (Some/None)", d2),
+            }
+            r.check(ia.contains_interval(&ib) == (ia.min <= ib.min && ib.max <= ia.max), "contains_interval agrees with its set definition", d2);
+        } }
+    } }
 }
